@@ -172,6 +172,7 @@ func CircuitInputs(c *circuit.Circuit, packed []*big.Int) ([]*big.Int, error) {
 type Feat struct {
 	Phi, EarlyReturn, Loop, Call, Array, Struct, Cast, Div, Mul, Shift, Shadow bool
 	DynIndex                                                                   bool
+	Composite                                                                  bool
 	MaxWidth                                                                   int
 	Stmts                                                                      int
 }
@@ -198,6 +199,13 @@ func Features(p *Prog) Feat {
 			f.Array, f.DynIndex = true, true
 		case EField:
 			f.Struct = true
+		case EComposite:
+			f.Composite = true
+			if e.T.K == KStruct {
+				f.Struct = true
+			} else {
+				f.Array = true
+			}
 		case EBin:
 			switch e.Name {
 			case "/", "%":
@@ -285,6 +293,7 @@ func (f Feat) Classes() []string {
 	add(f.Shift, "has-shift")
 	add(f.Shadow, "has-shadowing")
 	add(f.DynIndex, "has-dynindex")
+	add(f.Composite, "has-composite-literal")
 	add(f.MaxWidth > 64, "width>64")
 	add(f.Stmts >= 8, "stmts>=8")
 	return c
